@@ -402,6 +402,33 @@ class Unit:
                          lines_generated=len(f))
         self.fns.append(rec)
 
+    def expand_retain(self, body, rec):
+        """R22: `RECV.retain(|PAT| { BODY });` -> the loop std documents for Vec/VecDeque::retain ("visits each element
+        exactly once in the original order", keeps those for which the closure returns true), with the closure body
+        inlined verbatim.  The helpers vretain_take / vretain_at / vretain_keep are the unit's assumed std contracts."""
+        n = 0
+        while True:
+            bm = mask(body)
+            mt = re.search(r'([A-Za-z_][\w\.]*)\.retain\(\|([^|]*)\|\s*\{', bm)
+            if not mt:
+                break
+            bo = mt.end() - 1
+            bc = match_close(bm, bo)
+            tail = re.match(r'\s*\)\s*;', bm[bc + 1:])
+            if not tail:
+                raise Undecided('%s: retain call not in statement position' % rec.name)
+            recv, pat = body[mt.start(1):mt.end(1)], body[mt.start(2):mt.end(2)].strip()
+            k = n + 1
+            exp = ('let vold{k} = vretain_take(&mut {r});\n let mut vi{k}: usize = 0;\n while vi{k} < vretain_len(&vold{k})\n {{\n'
+                   ' let {p} = vretain_at(&vold{k}, vi{k});\n let vkeep{k} = {b};\n /*VXRETAIN-STEP{k}*/\n'
+                   ' if vkeep{k} {{ vretain_keep(&mut {r}, &vold{k}, vi{k}); }}\n vi{k} += 1;\n }}\n').format(k=k, r=recv, p=pat, b=body[bo:bc + 1])
+            body = body[:mt.start()] + exp + body[bc + 1 + tail.end():]
+            n += 1
+        if n == 0:
+            raise Undecided('anchor lost in %s: no `.retain(|..| {..});` call to expand' % rec.name)
+        rec.rewrites.append(dict(rule='R22', what='retain(closure) expanded into the documented element loop, closure body inlined', count=n))
+        return body
+
     def do_fn(self, arg, block, cur_file, mustfail, stub_from=None):
         name, opts = self.parse_opts(arg)
         rel = opts.get('file', cur_file)
@@ -443,6 +470,7 @@ class Unit:
         awaits = None
         sigsubs = []
         subs = []
+        expandretain = False
         sections = []  # (kind, arg, lines)
         cur = None
         for ln in block:
@@ -463,6 +491,8 @@ class Unit:
                     sig = a
                 elif c == 'addparam':
                     addparam = a
+                elif c == 'expandretain':
+                    expandretain = True
                 elif c in ('sub', 'sub?'):
                     rule, rest = a.split(None, 1)
                     rx, repl = parse_bt(rest)
@@ -526,6 +556,8 @@ class Unit:
             for j in sorted(starts, reverse=True):
                 body_text = body_text[:j] + '/*VXCANCEL*/' + body_text[j:]
             rec.rewrites.append(dict(rule='R3', what='cancel point before every awaiting statement', count=len(starts)))
+        if expandretain:
+            body_text = self.expand_retain(body_text, rec)
         body_new = self.apply_rules(body_text, rec, subs)
         # loops / inserts operate on the rewritten body
         inserts = []  # (pos, text_lines, kind, label)
